@@ -322,7 +322,14 @@ func runC17(c *Ctx) {
 			infra("bad table candidate %s", raw)
 		}
 		tc := t
-		cases = append(cases, c17Case{Ext: exts[len(cases)%len(exts)], Doc: rawDoc(concretiseTable(t)), Cand: &tc})
+		doc := concretiseTable(t)
+		cases = append(cases, c17Case{Ext: exts[len(cases)%len(exts)], Doc: rawDoc(doc), Cand: &tc})
+		// the same candidate as the end of the input without a final line ending (the last row -
+		// for a table without body rows the delimiter row - ends at the end of the source)
+		if len(t.Rows) <= 1 && t.Container == "top" && strings.HasSuffix(doc, "\n") {
+			tc2 := t
+			cases = append(cases, c17Case{Ext: exts[len(cases)%len(exts)], Doc: rawDoc(strings.TrimRight(doc, "\n")), Cand: &tc2})
+		}
 	}})
 	r.MustOK("Table generator")
 	ev.TLC(genCfg+" (Rectangular + candidate dump)", r)
